@@ -472,23 +472,35 @@ end Rew
 
 section Cond
 
+/-- the renormalised probabilities of a conditioned probabilistic row are positive (the divisor is
+the sum of the surviving probabilities: the row need not sum to 1) -/
+theorem condProb_pos_of_pos (reach : Array K) {row : List (Tr K)} (hpos : ∀ t ∈ row, 0 < t.p) :
+    ∀ t ∈ condProb reach row, 0 < t.p := by
+  intro t ht
+  by_cases hl : (row.filter (fun t => !dead reach t)).length = row.length
+  · rw [condProb_of_eq hl] at ht
+    exact hpos t ht
+  · rw [condProb_field_of_removed reach hl] at ht
+    obtain ⟨t', ht', rfl⟩ := List.mem_map.mp ht
+    have hne : row.filter (fun t => !dead reach t) ≠ [] := List.ne_nil_of_mem ht'
+    exact div_pos (hpos t' (List.mem_filter.mp ht').1) (live_sum_pos reach hpos hne)
+
 /-- the renormalised probabilities of a conditioned probabilistic row are positive -/
 theorem condProb_pos (reach : Array K) {row : List (Tr K)} (hpos : ∀ t ∈ row, 0 < t.p)
-    (hsum : (row.map (·.p)).sum = 1) : ∀ t ∈ condProb reach row, 0 < t.p := by
-  intro t ht
-  rw [condProb_field reach hsum] at ht
-  obtain ⟨t', ht', rfl⟩ := List.mem_map.mp ht
-  have hne : row.filter (fun t => !dead reach t) ≠ [] := List.ne_nil_of_mem ht'
-  exact div_pos (hpos t' (List.mem_filter.mp ht').1) (live_sum_pos reach hpos hne)
+    (_hsum : (row.map (·.p)).sum = 1) : ∀ t ∈ condProb reach row, 0 < t.p :=
+  condProb_pos_of_pos reach hpos
 
-/-- after conditioning (with or without pruning) every probabilistic row has positive weights -/
-theorem condition_prob_pos {g : Game K} (hg : Shape g) (hrows : ProbRowsOK g) {prune : Bool}
+/-- after conditioning (with or without pruning) every probabilistic row has positive weights, as
+soon as the original probabilistic rows have (they need not sum to 1) -/
+theorem condition_prob_pos_of_pos {g : Game K} (hg : Shape g)
+    (hrows : ∀ s, s < g.owners.size → g.owners.getD s .prob = .prob →
+      ∀ t ∈ g.tl.getD s [], 0 < t.p) {prune : Bool}
     {strat : Array Strat} {reach : Array K} {nodes : Array (List (Tr K))}
     (h : condition prune g strat reach = .ok nodes) :
     ∀ s, g.owners.getD s .prob = .prob → ∀ t ∈ nodes.getD s [], 0 < t.p := by
   intro s ho t ht
   by_cases hs : s < g.owners.size
-  · obtain ⟨hpos, hsum⟩ := hrows s hs ho
+  · have hpos := hrows s hs ho
     cases prune with
     | false =>
       rw [condition_false_eq] at h
@@ -498,7 +510,7 @@ theorem condition_prob_pos {g : Game K} (hg : Shape g) (hrows : ProbRowsOK g) {p
     | true =>
       rcases (condition_spec hg h).2 s with hrow | ⟨hnil, _, _⟩
       · rw [hrow, condRow_prob ho] at ht
-        exact condProb_pos reach hpos hsum t ht
+        exact condProb_pos_of_pos reach hpos t ht
       · rw [hnil] at ht; exact absurd ht List.not_mem_nil
   · exfalso
     have hs' : g.owners.size ≤ s := Nat.le_of_not_lt hs
@@ -514,15 +526,32 @@ theorem condition_prob_pos {g : Game K} (hg : Shape g) (hrows : ProbRowsOK g) {p
       · rw [hrow, condRow_of_ge hg _ _ hs'] at ht; exact absurd ht List.not_mem_nil
       · rw [hnil] at ht; exact absurd ht List.not_mem_nil
 
-/-- conditioning never fails on a game whose probabilistic rows are positive distributions -/
-theorem condition_ok {g : Game K} (hg : Shape g) (hrows : ProbRowsOK g) (prune : Bool)
-    (strat : Array Strat) (reach : Array K) :
+/-- after conditioning (with or without pruning) every probabilistic row has positive weights -/
+theorem condition_prob_pos {g : Game K} (hg : Shape g) (hrows : ProbRowsOK g) {prune : Bool}
+    {strat : Array Strat} {reach : Array K} {nodes : Array (List (Tr K))}
+    (h : condition prune g strat reach = .ok nodes) :
+    ∀ s, g.owners.getD s .prob = .prob → ∀ t ∈ nodes.getD s [], 0 < t.p :=
+  condition_prob_pos_of_pos hg (fun s hs ho => (hrows s hs ho).1) h
+
+/-- conditioning never fails on a game whose probabilistic rows have positive probabilities on
+their transitions into states of non-zero reachability probability: the divisor of `prune_paths`
+is the sum of the surviving probabilities (the rows need not sum to 1) -/
+theorem condition_ok_of_pos {g : Game K} (hg : Shape g) {reach : Array K}
+    (hrows : ∀ s, s < g.owners.size → g.owners.getD s .prob = .prob →
+      ∀ t ∈ g.tl.getD s [], dead reach t = false → 0 < t.p)
+    (prune : Bool) (strat : Array Strat) :
     ∃ nodes, condition prune g strat reach = .ok nodes := by
   cases prune with
   | false => exact ⟨_, condition_false_eq g strat reach⟩
   | true =>
-    obtain ⟨base, hb⟩ := prunePaths_field hg hrows strat reach
+    obtain ⟨base, hb⟩ := prunePaths_pos hg hrows strat
     exact condition_total_of_prunePaths hg hb
+
+/-- conditioning never fails on a game whose probabilistic rows are positive distributions -/
+theorem condition_ok {g : Game K} (hg : Shape g) (hrows : ProbRowsOK g) (prune : Bool)
+    (strat : Array Strat) (reach : Array K) :
+    ∃ nodes, condition prune g strat reach = .ok nodes :=
+  condition_ok_of_pos hg (fun s hs ho t ht _ => (hrows s hs ho).1 t ht) prune strat
 
 end Cond
 
